@@ -317,8 +317,8 @@ def cli_cases(T, tier):
     for vf in vflags:
         for of in oflags:
             for v in vecs:
-                if len(vf) <= 1:          # several version flags: any of them is admitted - not compared
-                    out.append((vf + of + ["-v", v], ""))
+                out.append((vf + of + ["-v", v], ""))
+                if len(vf) <= 1:
                     out.append((vf + of + ["--vector=" + v], ""))
             if len(vf) <= 1:
                 out.append((vf + of, ""))
@@ -338,8 +338,19 @@ def section_cases(T, name, tier):
         return [(lambda s=s: [s] + [obs_vector(c, s) for c in ALLC]) for s in invalid_strings(T, tier)]
     if name == "rh":
         vs = [v for f, v in vectors(T, "quick")][::37] + ["x", "AV:N", "CVSS:3.1/AV:N"]
+        def own_score_tokens(f, v):
+            # spellings of the vector's own base score with more digits than str(float) keeps on 2.7
+            try:
+                b = C[f](v).scores()[0]
+            except Exception:  # noqa
+                return []
+            r = repr(b)
+            return [r + "000000000001", r + "0000000000000001", "%.15f" % (b - 4e-15) if b > 0 else "0.000000000000004",
+                    r + "e0", "%.3f" % b]
+        fv = [(f, v) for f, v in vectors(T, "quick")][::37]
         return [(lambda t=t, v=v: [t, v] + [obs_rh(c, t + "/" + v) for c in ALLC]) for v in vs for t in RH_TOKENS] + \
-               [(lambda t=t: [t] + [obs_rh(c, t) for c in ALLC]) for t in RH_TOKENS]
+               [(lambda t=t: [t] + [obs_rh(c, t) for c in ALLC]) for t in RH_TOKENS] + \
+               [(lambda f=f, v=v: [v] + [[t, obs_rh(C[f], t + "/" + v)] for t in own_score_tokens(f, v)]) for f, v in fv]
     if name == "texts":
         return [(lambda t=t: [t, obs_text(t)]) for t in texts(T, tier)]
     if name == "builder":
